@@ -553,6 +553,36 @@ def job_wiring(job):
             if [float(t) for t in got["temperatures"]] != [float(t) for t in st["temps"]]:
                 r.violation("wiring|temperatures", "sampler for %s received temperatures %r, the command line says %r" % (sample, got["temperatures"], st["temps"]), payload)
         r.outcome(tuple(sorted(st.items())))
+    # per-sample parameter files (lines in another order than the BAM arguments; a sample missing from the ladder file keeps the default ladder)
+    import os
+
+    Fs = {"S1": 0.05, "S2": 0.3, "S3": 0.15}
+    ladders = {"S2": (0.3, 0.6), "S3": (0.9,)}
+    f_in = os.path.join(D.dir, "inb.txt")
+    with open(f_in, "w") as f:
+        for s_ in ("S3", "S1", "S2"):
+            f.write("%s\t%g\n" % (s_, Fs[s_]))
+    f_t = os.path.join(D.dir, "temps.txt")
+    with open(f_t, "w") as f:
+        for s_ in ("S3", "S2"):
+            f.write("\t".join([s_] + ["%g" % t for t in ladders[s_]]) + "\n")
+    seen.clear()
+    with patched((asm, "DenovoMCMC", Rec)):
+        stddata.run(D.assemble_args(bed=bed, extra=["--inbreeding", f_in, "--mcmc-temperatures", f_t]))
+    env.quiet()
+    r.evaluations += 1
+    r.nontrivial += 1
+    if len(seen) != 2 * 3:
+        r.violation("wiring-count", "%d sampler objects fitted for 2 loci x 3 samples (parameter files)" % len(seen), payload)
+    for i, got in enumerate(seen):
+        sample = D.samples[i % 3]
+        want_t = sorted(ladders.get(sample, ())) + [1.0] if sample in ladders else [1.0]
+        if got["ploidy"] != stddata.PLOIDY[sample] or got["inbreeding"] != Fs[sample]:
+            r.violation("wiring|sample-file|inbreeding", "sampler for %s received ploidy %r / inbreeding %r, the files say %r / %r" % (
+                sample, got["ploidy"], got["inbreeding"], stddata.PLOIDY[sample], Fs[sample]), payload)
+        if [float(t) for t in got["temperatures"]] != [float(t) for t in want_t]:
+            r.violation("wiring|sample-file|temperatures", "sampler for %s received temperatures %r, the ladder file gives %r" % (sample, list(got["temperatures"]), want_t), payload)
+    r.outcome(("files", tuple(sorted(Fs.items()))))
     # every numeric sampler option, boundary values included (0 is falsy: a default must not replace it)
     from .. import optwire
     from mchap.application import arguments as A
